@@ -46,6 +46,9 @@ structure Lattice where
   isFace : Loc → Bool
   /-- `code.get_stabilizer(loc)` -/
   stabOp : Loc → Op
+  /-- `code.id == 'RotatedToric3DCode'`: the test of `RotatedSweepDecoder3D._wrap` (the only
+      class of `allowed_codes` that is periodic in x and y) -/
+  rotSeam : Bool := false
 
 /-- `max(code.size)` -/
 def Lattice.maxSize (l : Lattice) : Nat := max l.size.1 (max l.size.2.1 l.size.2.2)
@@ -213,5 +216,6 @@ def rotToric3D (Lx Ly Lz : Nat) : Lattice where
   stabs := rotToricStabs Lx Ly Lz
   isFace := rotIsFace
   stabOp := rotToricStabOp Lx Ly Lz
+  rotSeam := true
 
 end Panqec.Sweep
